@@ -24,7 +24,7 @@ YOUR TASK: make ONE realistic source change to the library code in the worktree 
   (a) the package still imports, and
   (b) the existing test suite still passes exactly as before. Run it with:
         cd {wt} && /venv/bin/python -m pytest -q -p no:cacheprovider --timeout=900 -x -q 2>&1 | tail -5
-      On the unmodified tree 400 tests pass and exactly 20 fail (test_read_table_xls, 9 TestHighLowGate *defaults* tests, 5 TestFCSAttributesChannelLabels tests, 5 TestMode tests); with your change the same 400 must still pass (do not use -x when comparing; compare the set of failures before and after, e.g. with `-q -rf | grep FAILED | sort`).
+      On the unmodified tree 409 tests pass and 11 fail (test_read_table_xls, 5 TestFCSAttributesChannelLabels tests, 5 TestMode tests - their reference values are written for older library versions); with your change exactly the same tests must still pass (do not use -x when comparing; compare the set of failures before and after, e.g. with `-q -rf | grep FAILED | sort`).
   (c) the change should look like a plausible bug a maintainer could introduce (a refactor slip, an off-by-one, a wrong variable, an optimisation, a dropped copy, a changed default, a reordered step) - NOT sabotage such as `if x == 12345`, random behaviour, or deleting functionality wholesale.
   (d) IMPORTANT: the breakage should need something specific to manifest - a particular multi-step sequence of operations, an unusual-but-legal input, a specific configuration/corner of the input space, or two cooperating sites that each look fine alone - NOT something ordinary use would expose at once. Prefer subtle over blatant.{(' Variant hint: ' + hint) if hint else ''}
 
@@ -35,6 +35,6 @@ DELIVERABLES, all inside the worktree directory {wt}:
   1. {wt}/MUTANT.diff  - output of `git -C {wt} diff -- FlowCal` (the source change only).
   2. {wt}/demo.py      - a small standalone program (run as `PYTHONPATH={wt} MPLBACKEND=Agg /venv/bin/python {wt}/demo.py`) that exits 0 and prints PASS on the UNMODIFIED library, and exits 1 and prints FAIL (with a short explanation) on the MODIFIED library. It must only rely on the public behaviour described in the property, generate its own input data (e.g. write small FCS files itself to a temp dir; test data files exist under {wt}/test and {wt}/examples if useful), and be deterministic.
   3. {wt}/MUTANT.md    - a few lines: what you changed, why the tests miss it, and exactly what is needed for it to manifest.
-Verify (a)-(d) yourself: run demo.py with the change (must FAIL); save the change with `git -C {wt} diff -- FlowCal > {wt}/MUTANT.diff`, undo it with `git -C {wt} apply -R {wt}/MUTANT.diff` and run demo.py (must PASS), then re-apply it with `git -C {wt} apply {wt}/MUTANT.diff` (do NOT use `git stash`: the stash is shared by all worktrees of the repository and other agents are working in sibling worktrees); run the full test suite with the change and confirm the same 20 failures and 400 passes. Leave the worktree WITH the change applied (uncommitted).
+Verify (a)-(d) yourself: run demo.py with the change (must FAIL); save the change with `git -C {wt} diff -- FlowCal > {wt}/MUTANT.diff`, undo it with `git -C {wt} apply -R {wt}/MUTANT.diff` and run demo.py (must PASS), then re-apply it with `git -C {wt} apply {wt}/MUTANT.diff` (do NOT use `git stash`: the stash is shared by all worktrees of the repository and other agents are working in sibling worktrees); run the full test suite with the change and confirm the same 11 failures and 409 passes. Leave the worktree WITH the change applied (uncommitted).
 
 In your final answer, report: the diff, the demo result before/after, and the test-suite pass/fail counts with the change.""")
